@@ -86,3 +86,107 @@ pub exec const MADV_DODUMP: i32
 { libc::MADV_DODUMP }
 
 } // verus!
+
+verus! {
+
+// ---- allocator types (std, no vstd specification) --------------------------------------------------------
+#[verifier::external_type_specification]
+#[verifier::external_body]
+pub struct ExLayout(std::alloc::Layout);
+
+#[verifier::external_type_specification]
+pub struct ExAllocError(std::alloc::AllocError);
+
+#[verifier::external_type_specification]
+#[verifier::external_body]
+#[verifier::accept_recursive_types(T)]
+pub struct ExNonNull<T: std::marker::PointeeSized>(std::ptr::NonNull<T>);
+
+pub uninterp spec fn layout_size(l: std::alloc::Layout) -> nat;
+
+/// `Layout::size()`: a Layout's size never exceeds isize::MAX (documented invariant of std::alloc::Layout)
+pub assume_specification[ std::alloc::Layout::size ](l: &std::alloc::Layout) -> (r: usize)
+    ensures
+        r == layout_size(*l),
+        r <= isize::MAX,
+;
+
+/// address / length of a `NonNull<[u8]>`
+pub uninterp spec fn nonnull_slice_addr(p: std::ptr::NonNull<[u8]>) -> int;
+pub uninterp spec fn nonnull_slice_len(p: std::ptr::NonNull<[u8]>) -> nat;
+pub uninterp spec fn nonnull_addr(p: std::ptr::NonNull<u8>) -> int;
+
+// ---- raw pointers: UNSAFE code, its meaning is assumed ---------------------------------------------------
+/// stride of `<*mut T>::add` (= size_of::<T>()); assumed 1 for u8 and c_void (c_void is a 1-byte repr(u8) enum)
+pub uninterp spec fn ptr_stride<T>() -> int;
+
+#[verifier::external_body]
+pub broadcast proof fn axiom_stride_u8()
+    ensures
+        #[trigger] ptr_stride::<u8>() == 1,
+{
+}
+
+#[verifier::external_body]
+pub broadcast proof fn axiom_stride_c_void()
+    ensures
+        #[trigger] ptr_stride::<std::ffi::c_void>() == 1,
+{
+}
+
+/// `p.add(count)`: address arithmetic only (wrapping/provenance rules are the caller's unsafe obligation)
+pub assume_specification<T>[ <*mut T>::add ](p: *mut T, count: usize) -> (r: *mut T)
+    ensures
+        r as int == p as int + count * ptr_stride::<T>(),
+;
+
+/// `p.offset(count)`
+pub assume_specification<T>[ <*mut T>::offset ](p: *mut T, count: isize) -> (r: *mut T)
+    ensures
+        r as int == p as int + count * ptr_stride::<T>(),
+;
+
+/// `std::slice::from_raw_parts_mut(p, len)`: the slice that starts at p and has len elements
+pub assume_specification<'a, T>[ std::slice::from_raw_parts_mut ](p: *mut T, len: usize) -> (r: &'a mut [T])
+    ensures
+        slice_addr(&*r) == p as int,
+        r@.len() == len,
+;
+
+pub assume_specification<T: std::marker::PointeeSized>[ std::ptr::NonNull::<T>::as_ptr ](p: std::ptr::NonNull<T>) -> (r: *mut T)
+;
+
+} // verus!
+
+verus! {
+
+/// R2 shim for `posix_memalign(&mut out, align, size)` (the source passes `&mut *mut c_void` where C expects
+/// `void **`).  0 = `out` is the start of a fresh block of `size` bytes, aligned to `align`, inside the address space.
+#[verifier::external_body]
+pub unsafe fn shim_posix_memalign(out: &mut *mut std::ffi::c_void, align: usize, size: usize) -> (r: i32)
+    ensures
+        r == 0 ==> kernel_allocated(*final(out) as int, align as int, size as int)
+            && (*final(out) as int) % (align as int) == 0
+            && *final(out) as int > 0
+            && *final(out) as int + size <= usize::MAX,
+{
+    libc::posix_memalign(out, align, size)
+}
+
+/// R2 shim for `ptr::NonNull::new_unchecked(slice)` on a `&mut [u8]`
+#[verifier::external_body]
+pub unsafe fn shim_nonnull_slice(s: &mut [u8]) -> (r: std::ptr::NonNull<[u8]>)
+    ensures
+        nonnull_slice_addr(r) == slice_addr(&*old(s)),
+        nonnull_slice_len(r) == old(s)@.len(),
+{
+    std::ptr::NonNull::new_unchecked(s)
+}
+
+/// R2 shim for `<Result>.map_err(|err| eprintln!(<fmt>, err)).ok();` — logging only
+#[verifier::external_body]
+pub fn shim_report(r: Result<(), std::io::Error>, fmt: &str) {
+    r.map_err(|err| eprintln!("{} {:?}", fmt, err)).ok();
+}
+
+} // verus!
